@@ -17,6 +17,7 @@ BOUNDS = [None] + list(range(-1, 12))       # before / on / between / after ever
 SUBSETS = [[g for i, g in enumerate(GRID) if (m >> i) & 1] for m in range(64)]
 BRACKETS = ['()', '(]', '[)', '[]']
 TOD_ROWS = [(d, m) for d in (0, 1) for m in (0, 360, 720, 1080, 1410)]          # 00:00 06:00 12:00 18:00 23:30 on two days
+TOD_ROWS = sorted(TOD_ROWS + [(0, 360 + 0.25 / 60), (1, 720 - 0.5 / 60)])          # 06:00:00.25 and 11:59:59.5: in the same second as a bound / the second before it
 TOD_BOUNDS = [None, 0, 180, 360, 540, 720, 900, 1080, 1260, 1410, 1425]
 K_WRAP = 'C13:time-of-day:wrap:brackets-ignored'
 K_UNSLICE1 = 'C13:unslice:n=1:raises'
